@@ -410,10 +410,23 @@ def g_random_ro(rng, tier, props):
     return out
 
 
+def mixed_layout(rng):
+    """Channel layouts beyond the default U / RU / RO triple: several channels of one kind, channel ids that are not 0..n-1,
+    different channel sets in the two directions (server_channels_config != client_channels_config)."""
+    def mk(kinds, ids):
+        return [GM.chan(ids[j], k, resend=rng.choice([100, 300])) for j, k in enumerate(kinds)]
+    kind_sets = [["RO", "RO"], ["U", "U", "RO"], ["RU", "RU", "U"], ["RO", "U"], ["RU"], ["U", "RO", "RU", "RO"], ["U", "RU", "RO"]]
+    id_sets = [[0, 1, 2, 3], [3, 7, 200, 9], [255, 0, 128, 1]]
+    ks = rng.choice(kind_sets)
+    kc = ks if rng.random() < 0.5 else rng.choice(kind_sets)
+    return mk(ks, rng.choice(id_sets)), mk(kc, rng.choice(id_sets))
+
+
 def g_random_mixed(rng, tier, props):
     out = []
     for i in range(n_of(tier, 20, 300)):
-        out.append(GM.random_schedule(rng, "mix-%d" % i, props, ticks=rng.randint(5, 40),
+        sc, cs = (None, None) if i % 2 == 0 else mixed_layout(rng)
+        out.append(GM.random_schedule(rng, "mix-%d" % i, props, chans_sc=sc, chans_cs=cs, ticks=rng.randint(5, 40),
                                       p_drop=rng.choice([0.0, 0.15, 0.4]), p_dup=rng.choice([0.0, 0.1, 0.3])))
     return out
 
@@ -665,8 +678,14 @@ def g_stack_twin(rng, tier, props):
     return GS.twin_schedules(rng, props, n_of(tier, 12, 120))
 
 
+def g_stack_churn(rng, tier, props):
+    # clients join one after the other and leave on their own initiative in some order; the others keep exchanging messages
+    return GS.stack_schedules(rng, props, n_of(tier, 16, 200), modes=("churn", "churn_hole", "churn_hole"))
+
+
 def g_stack(rng, tier, props):
-    return GS.stack_schedules(rng, props, n_of(tier, 100, 1500), tier != "quick")
+    return GS.stack_schedules(rng, props, n_of(tier, 100, 1500), tier != "quick",
+                              modes=("interference", "interference", "disconnects", "churn", "churn", "churn_hole", "silence"))
 
 
 NC_ASSUME = [
@@ -754,7 +773,8 @@ PLANS = {
     # isolation between channels includes the acknowledgement path: an ack caused by one channel's packet must not release another
     # channel's message (clauses of C08 on every stream, next to those of C01-C03)
     "C11": Plan("msg", "TraceRenetMon", ["C11", "C01", "C02", "C03", "C08"], [("multi", g_multi), ("random_mixed", g_random_mixed),
-                                                                                 ("stack_twin", g_stack_twin, "stack", "TraceTransportMon")],
+                                                                                 ("stack_twin", g_stack_twin, "stack", "TraceTransportMon"),
+                                                                                 ("stack_churn", g_stack_churn, "stack", "TraceTransportMon")],
                 mc=[mc_job("server_bcast", "MC_Server", {"quick": ["MC_C11_q1.cfg"], "thorough": ["MC_C11_q1.cfg"]}, ["C11", "C01", "C02", "C03", "C08"],
                            strict=False, cap_q=600, cap_t=10000)],
                 level="model_checking", assumptions=MSG_ASSUME,
